@@ -1,0 +1,14 @@
+//go:build verif
+
+package internal
+
+import "time"
+
+// VerifTimerHook, when set, observes every EventTimer.Reset (verification builds only).
+var VerifTimerHook func(t *EventTimer, d time.Duration)
+
+func verifTimerReset(t *EventTimer, d time.Duration) {
+	if h := VerifTimerHook; h != nil {
+		h(t, d)
+	}
+}
